@@ -296,7 +296,7 @@ def run(ctx):
         shutil.rmtree(work, ignore_errors=True)
     ctx.rule = ('(1) closure: undefined-symbol table of every library object (prod/portable-64/portable-32) against the allowed set, and a freestanding -nostdlib -static link with a runtime '
                 'providing only memcpy/memmove/memset/memcmp/bcmp + libgcc that runs the static initialisers and a pairing/WKD-IBE/LQ-IBE smoke workload; (2) strace: no system call between two '
-                'markers bracketing operations of all 14 API families; (3) every writable symbol of the library objects is snapshotted after load and compared after the workload; '
+                'markers bracketing operations of all 15 API families; (3) every writable symbol of the library objects is snapshotted after load and compared after the workload; '
                 '(4) TSan builds: 4/8/16 threads released from a barrier run seeded mixes of all families on private outputs sharing const inputs (params, keys, prepared G2), often the very same '
                 'operation at once; no TSan report, results equal to a sequential replay; the evidence lists which family pairs were actually observed overlapping; '
                 '(5) const inputs stay const: the shared inputs (parameters, keys, attribute lists with identities >= r and >= 2r and hidden entries, scalars >= r, prepared G2, hash inputs) are '
